@@ -24,7 +24,7 @@ From Gen Require Import GateTables.
 Import ListNotations.
 Open Scope string_scope.
 Definition run (ops : list (op Z)) : string :=
-  zrun gtables small_modulus_units eq_modulus_units inv_S_units inv_T_units ops.
+  zrun gtables small_modulus_units small_modulus_long_units eq_modulus_units eq_modulus_long_units inv_S_units inv_T_units ops.
 """
 
 GATE_NAMES = LC.ALL_UNITARY + ["MEASURE"]
